@@ -522,7 +522,8 @@ func check(c Case) (msg, key string) {
 var states2 = []string{"intact", "stale-volumes", "cut-in-zero-tail", "dup-slice", "symlinked-volumes", "dup-volume", "grown-16k", "repairable", "repairable-flip", "relocation", "length-only", "create-obstructed", "swap", "unrepairable", "noparity-damaged", "all-lost", "noparity-intact", "damaged-index", "missing-index", "unknown-ext"}
 var states1 = []string{"intact", "par1-comment", "symlinked-volumes", "grown-16k", "repairable", "repairable-flip", "create-obstructed", "unrepairable", "noparity-damaged", "all-lost", "noparity-intact", "damaged-index", "missing-index", "unknown-ext"}
 
-var usages = [][]string{{}, {"", "set.par2", "a"}, {"", "set.par", "a"}, {"frobnicate"}, {"frobnicate", "set.par2"}, {"v"}, {"verify"}, {"r"}, {"c"}, {"c", "set.par2"}, {"create", "set.par"}, {"-bogus", "v", "set.par2"},
+var usages = [][]string{{}, {"v", "-h", "set.par2"}, {"verify", "-help", "set.par"}, {"r", "--help", "set.par2"}, {"c", "-h", "set.par2", "a"}, {"-help", "v", "set.par2"}, {"--help"}, {"v", "-x", "set.par2"},
+	{"", "set.par2", "a"}, {"", "set.par", "a"}, {"frobnicate"}, {"frobnicate", "set.par2"}, {"v"}, {"verify"}, {"r"}, {"c"}, {"c", "set.par2"}, {"create", "set.par"}, {"-bogus", "v", "set.par2"},
 	{"-g", "abc", "v", "set.par2"}, {"c", "-s", "xyz", "set.par2", "a"}, {"c", "-c", "1.5", "set.par2", "a"}, {"v", "-bogus", "set.par2"}, {"r", "-bogus", "set.par"}, {"-g"}, {"c", "-s"}}
 
 var idxBases = []string{"set", "set", "backup.vol7+3", "rate 5%", "my%20set", "a b", "x.y", "100%d", "q[1]", "backup.part1", "x.par2", "set.par"}
